@@ -1,4 +1,5 @@
 import StepModel.ExpLexLayout
+import StepModel.ExpLexStr
 /-!
 # C07, character level: what the scanner reads from the laid-out text of an expression
 
@@ -134,6 +135,41 @@ theorem C07_char_roundtrip_respelled_partial (e : Expr) (hw : wfE (respell e)) (
     (lex (run st (exprFrags Shared.clean e false none)).text).bind parse = some (norm (respell e)) := by
   rw [← C07_print_respells e hl false none]
   exact C07_char_roundtrip_partial (respell e) hw hl st h0 hs
+
+/-- **`breakLongStr` and the scanner, every line length**: from any state in which the text so far is read as `TS` whatever
+follows (`K`), the text `breakLongStr` adds for the string `s` — in one piece, or cut at its break points with the separator
+`'`⏎`+ '`, in parentheses or not — is read as the literal `'…'` (doubled apostrophes) or as a sum of literals whose bodies
+concatenate to it (`StrSplit`).  `hsafe`: what precedes an opening parenthesis of the split form may be followed by `(`. -/
+theorem C07_string_literal_lexes (st : PState) (TS : List Tok) (lt slt : Option Tok) (s : List Char) (paren : Bool)
+    (hK : K st TS lt) (hr : lt = none ∨ lt = slt) (hsafe : paren = true → ∀ t0, slt = some t0 → adjOK t0 .lp = true) :
+    ∃ ts lt', K (breakLongStr st s paren) (TS ++ ts) lt' ∧ StrSplit (escQ s) ts :=
+  let ⟨ts, lt', h1, _, h3⟩ := K_str st TS lt slt s paren hK hr hsafe
+  ⟨ts, lt', h1, h3⟩
+
+/-- **Character level with string literals, every line length.**  As `C07_lex_layout_respelled_partial`, simple string
+literals allowed (`lexWFS`): the scanner reads the laid-out text of `e` as tokens `ts` that are the tokens of the expression
+(`toks (respell e)`) except that a string literal may have been read as a split rendering of it (`Joined`: `'a.' + 'b'`, possibly
+in parentheses, for `'a.b'` — the splitting of string literals the property allows).  No other token is glued, split or lost.
+Excluded: an integer literal as operand of `.` (rejected by the resolver). -/
+theorem C07_lex_layout_strings_partial (e : Expr) (hw : lexWFS (respell e)) (p : Bool) (q : Option BinOp) (st : PState)
+    (TS : List Tok) (hK : K st TS none) :
+    ∃ ts, Lexes (run st (exprFrags Shared.clean e p q)).text (TS ++ ts) ∧ Joined ts (toks Shared.clean (respell e) p q) := by
+  rw [← (frags_respellS e).1 p q hw]
+  obtain ⟨hf, ht⟩ := (annotS_eq (respell e)).1 p q hw
+  obtain ⟨hs, _⟩ := (safe_allS (respell e)).1 p q none hw (Or.inl rfl)
+  obtain ⟨ts, lt', hK', _, hj⟩ := K_runS (annotS (respell e) p q) st TS none none hK (Or.inl rfl) hs
+  rw [hf] at hK'
+  rw [ht] at hj
+  refine ⟨ts, ?_, hj⟩
+  have := hK'.2.1 [] [] (by cases lt' <;> trivial) (Lexes.done [] rfl)
+  simpa using this
+
+/-- the same for the executable scanner from the initial state -/
+theorem C07_lex_layout_strings_exec_partial (e : Expr) (hw : lexWFS (respell e)) (p : Bool) (q : Option BinOp) (st : PState)
+    (h0 : st.pieces = []) (hs : st.spaceLast = false) :
+    ∃ ts, lex (run st (exprFrags Shared.clean e p q)).text = some ts ∧ Joined ts (toks Shared.clean (respell e) p q) := by
+  obtain ⟨ts, hl, hj⟩ := C07_lex_layout_strings_partial e hw p q st [] (K_init st h0 hs)
+  exact ⟨ts, lex_of_lexes (by simpa using hl), hj⟩
 
 /-- grammar token of a punctuation/operator token of the model -/
 def symTokName : Tok → Option String
